@@ -242,6 +242,15 @@ def run(ctx):
             u, _ = _replay(ctx, r.traces, "GenSim")
             unjudged += u
 
+    # vacuity guard for Q2: PK_OK echoing the key blob but naming the other family's algorithm (certificate <-> plain)
+    # must have answered queries for certificate keys and for plain keys
+    kinds = ["ssh-ed25519", "ssh-ed25519-cert-v01@openssh.com", "ssh-rsa", "ssh-rsa-cert-v01@openssh.com"]
+    missing = [k for k in kinds if not ctx.extra.get("cross_family_pkok:" + k)]
+    if missing:
+        raise vlib.Infra("no cross-family PK_OK reply answered a query for key format(s) %s" % missing)
+    if not ctx.extra.get("cross_family_pkok_cert_key") or not ctx.extra.get("cross_family_pkok_plain_key"):
+        raise vlib.Infra("no cross-family PK_OK reply ran for a certificate key and for a plain key (cert=%s plain=%s)"
+                         % (ctx.extra.get("cross_family_pkok_cert_key"), ctx.extra.get("cross_family_pkok_plain_key")))
     ctx.exhaustive = True
     if unjudged and not ctx.violations:
         raise vlib.Infra("%d kinds of real runs differ from the model and could not all be judged by the monitor: "
